@@ -1,6 +1,7 @@
 package main
 
 import (
+	"go/ast"
 	"strings"
 )
 
@@ -51,6 +52,65 @@ func extractPipeline() {
 	s.boolean("preForwardsEverySeedOnce", forward("internal/pkg/preprocessor/preprocessor.go", "preprocessor", "outputCh"))
 	s.boolean("archForwardsEverySeedOnce", forward("internal/pkg/archiver/archiver.go", "archiver", "outputCh"))
 	s.boolean("postForwardsEverySeedOnce", forward("internal/pkg/postprocessor/postprocessor.go", "postprocessor", "outputCh"))
+
+	// every send a stage does on its way out can be interrupted by the stop: it sits in a select with ctx.Done()
+	// (exceptions: the bounded asset semaphore of archive() and Stop()'s own watcher signal)
+	sendsOK := func(rel string) bool {
+		f := load(rel)
+		if f == nil {
+			return false
+		}
+		for _, d := range f.Decls {
+			fd, ok := d.(*ast.FuncDecl)
+			if !ok {
+				continue
+			}
+			for _, op := range chanOps(fd.Body) {
+				if op.Kind != "send" {
+					continue
+				}
+				t := strings.ReplaceAll(op.Text, " ", "")
+				if t == "guard<-struct{}{}" || t == "stopLocalWatcher<-struct{}{}" {
+					continue
+				}
+				if !(op.InSelect && (op.CtxDone || op.HasDefaul)) {
+					return false
+				}
+			}
+		}
+		return true
+	}
+	s.boolean("preSendsCancellable", sendsOK("internal/pkg/preprocessor/preprocessor.go"))
+	s.boolean("archSendsCancellable", sendsOK("internal/pkg/archiver/archiver.go"))
+	s.boolean("postSendsCancellable", sendsOK("internal/pkg/postprocessor/postprocessor.go"))
+	// archive() leaves only after every capture it started has ended: one wg.Wait() at the end, no return in the loop over the items
+	ar := fn("internal/pkg/archiver/archiver.go", "archive")
+	early := false
+	if ar != nil {
+		for _, n := range ar.Body.List {
+			if fs, ok := n.(*ast.ForStmt); ok {
+				var walk func(x ast.Node) bool
+				walk = func(x ast.Node) bool {
+					found := false
+					ast.Inspect(x, func(y ast.Node) bool {
+						switch y.(type) {
+						case *ast.FuncLit:
+							return false
+						case *ast.ReturnStmt:
+							found = true
+						}
+						return true
+					})
+					return found
+				}
+				if walk(fs.Body) {
+					early = true
+				}
+			}
+		}
+	}
+	ars := strings.ReplaceAll(src(ar), " ", "")
+	s.boolean("archiveWaitsForItsCaptures", !early && strings.Count(ars, "wg.Wait()") == 1 && strings.HasSuffix(strings.TrimSuffix(ars, "}"), "wg.Wait()return"))
 
 	fw := strings.ReplaceAll(src(fn("internal/pkg/finisher/finisher.go", "finisher.worker")), " ", "")
 	iFresh := strings.Index(fw, "ifseed.GetStatus()==models.ItemFresh{")
